@@ -6,6 +6,8 @@ destinations and filter control blocks by name and by object; explicit finalize(
 implicit one at start; one class of invalid reference per negative case.
 Oracle: own resolver (name -> expected object) + biconditionals over all block pairs.
 """
+import warnings
+
 from hypothesis import strategies as st
 
 import edzed
@@ -17,7 +19,7 @@ ID = 'C15'
 LEVEL = 'exploration'
 BUDGET = {'quick': 2500, 'thorough': 12000}
 RULE = ("Case = 1-3 Inputs + 1-6 CBlocks (generic probe, FuncBlock, And/Or) with positional inputs, named "
-        "singles and named groups of size 0-3, every reference drawn from {object, name, '_not_NAME' shortcut "
+        "singles and named groups of size 0-3 (given as list, tuple or one-shot iterator), every reference drawn from {object, name, '_not_NAME' shortcut "
         "to S- or C-block, Const(v), bare constant} with repeats, 0-3 Events (destination by name/object) and "
         "filters IfOutput / NotIfInitialized / DataEdit.add_output (also two add_output steps of one chain naming different blocks under one key) with control block by name/object, "
         "finalisation by explicit Circuit.finalize() or implicitly at start; or a negative case with exactly "
@@ -100,7 +102,9 @@ def cases(draw):
                     named[nm] = grp
         if not pos and not named:
             pos = [ref(srcnames if kind == 'and' else None)]
-        cblocks.append({'kind': kind, 'pos': pos, 'named': named})
+        # how a group is handed over: list, tuple, or a one-shot iterator (deprecated, but accepted)
+        cblocks.append({'kind': kind, 'pos': pos, 'named': named,
+                        'group_as': draw(st.sampled_from(['list', 'list', 'tuple', 'iter', 'gen']))})
     events = [{'dest': draw(st.integers(0, ns - 1)), 'byname': draw(st.booleans())}
               for _ in range(draw(st.integers(0, 3)))]
     filters = [{'kind': draw(st.sampled_from(['ifoutput', 'notifinit', 'add_output', 'add_output2'])),
@@ -236,7 +240,15 @@ def execute(case):
                     blk = edzed.And(name)
                 args = [mat(r) for r in d['pos']]
                 kwargs = {k: ([mat(x) for x in v] if k in 'gh' else mat(v)) for k, v in d['named'].items()}
-                blk.connect(*args, **kwargs)
+                how = d.get('group_as', 'list')
+                for k in kwargs:
+                    if k in 'gh' and how != 'list':
+                        members = kwargs[k]
+                        kwargs[k] = (tuple(members) if how == 'tuple' else iter(members) if how == 'iter'
+                                     else (m for m in members))
+                with warnings.catch_warnings():
+                    warnings.simplefilter('ignore', DeprecationWarning)
+                    blk.connect(*args, **kwargs)
                 objs[name] = blk
             if not case.get('late'):
                 make_refs()
